@@ -18,6 +18,13 @@ def jobs(tier):
                               functions=["optimize_operator", "operator_table", "_pixman_setup_combiner_functions_32"],
                               domain="every (s,m,d) in 2^96 with the cell's alphas forced to 255; every other flag bit",
                               timeout=600, min_props=2, unwind=2))
+    # the opacity *flags* (compute_image_info: IS_OPAQUE / SAMPLES_OPAQUE only if every contributing sample has alpha 1):
+    # harness/C09/info.c, written by the image helper
+    try:
+        import C09_info
+        js += C09_info.jobs(tier)
+    except ImportError:
+        pass
     return js
 
 
